@@ -16,7 +16,7 @@ output order: omit-tag guard, attributes left to right, then the content.
 """
 from __future__ import annotations
 
-from .gen import RAISING_FORMS
+from .gen import BARE_NAME_EXISTS, RAISING_FORMS
 from .env import (EXISTS_CAUGHT, PIPE_CAUGHT, BadHtml, BadIter, BadSeq, Handler,
                   Html, Probe, default_marker, tcall_record)
 
@@ -112,6 +112,11 @@ class Model:
                 self.fail_info[id(exc)] = (e["id"], self.fn_depth)
                 self.fail_oid[id(exc)] = e.get("oid")
                 raise
+        if k == "name":
+            # (only generated under exists:)
+            if BARE_NAME_EXISTS[e["name"]]:
+                return True
+            raise NameError(e["name"])
         if k == "load":
             return ("template", e["file"])
         if k == "lit":
